@@ -50,9 +50,10 @@ type Write struct {
 }
 
 type Batch struct {
-	Mode   int     `json:"mode"` // 0 store.Set, 1 tree API, 2 MemSet+Commit
+	Mode   int     `json:"mode"` // 0 store.Set, 1 tree API, 2 MemSet+Commit, 3 DelKVPair (Dels)
 	Sync   bool    `json:"sync"`
 	Writes []Write `json:"writes"`
+	Dels   []hexb  `json:"dels,omitempty"`
 }
 
 type Query struct {
@@ -316,6 +317,7 @@ func runHistory(o *hlib.Out, h *History, workdir string, serial int) {
 		}
 		var newRoot []byte
 		var updated []bool
+		var delVals [][]byte
 		var err error
 		func() {
 			defer func() {
@@ -325,6 +327,12 @@ func runHistory(o *hlib.Out, h *History, workdir string, serial int) {
 			}()
 			set := &types.StoreSet{StateHash: root, KV: kvs, Height: height}
 			switch b.Mode {
+			case 3:
+				dk := make([][]byte, len(b.Dels))
+				for i, k := range b.Dels {
+					dk[i] = k.bytes()
+				}
+				newRoot, delVals, err = mavldb.DelKVPair(e.st.GetDB(), &types.StoreGet{StateHash: root, Keys: dk}, e.cfg)
 			case 0:
 				newRoot, err = e.st.Set(set, b.Sync)
 			case 1:
@@ -395,7 +403,15 @@ func runHistory(o *hlib.Out, h *History, workdir string, serial int) {
 			}
 			upd = "(Some " + hlib.List(us) + ")"
 		}
-		batchTerms = append(batchTerms, hlib.App("BT", hlib.List(ws), upd, fmt.Sprint(class), dbc, p.coq(t), hlib.Bool(oldSame)))
+		if b.Mode == 3 {
+			ds := make([]string, len(b.Dels))
+			for i, k := range b.Dels {
+				ds[i] = t.kv(k.bytes(), delVals[i])
+			}
+			batchTerms = append(batchTerms, hlib.App("BD", hlib.List(ds), fmt.Sprint(class), dbc, p.coq(t), hlib.Bool(oldSame)))
+		} else {
+			batchTerms = append(batchTerms, hlib.App("BT", hlib.List(ws), upd, fmt.Sprint(class), dbc, p.coq(t), hlib.Bool(oldSame)))
+		}
 		impl = append(impl, implBatch{Root: hex.EncodeToString(newRoot), Class: class, DBCount: cnt, Size: p.size,
 			Height: p.height, OldSame: oldSame, ProbeErr: p.panic, Changed: changed})
 		finalSize = p.size
@@ -509,7 +525,7 @@ func neighbour(r *hlib.Rng, k []byte) []byte {
 	}
 }
 
-func genHistory(r *hlib.Rng, class int, prefix bool) *History {
+func genHistory(r *hlib.Rng, class int, prefix bool, dels bool) *History {
 	var nb, maxw int
 	switch class {
 	case 0: // small
@@ -546,10 +562,29 @@ func genHistory(r *hlib.Rng, class int, prefix bool) *History {
 	total := 0
 	var prev []Write
 	for b := 0; b < nb; b++ {
-		bt := Batch{Mode: r.Intn(3), Sync: r.Chance(1, 2)}
+		bt := Batch{Mode: r.Intn(3), Sync: r.Chance(1, 4)}
 		nw := r.Range(1, maxw)
 		if r.Chance(1, 15) {
 			nw = 0 // an empty batch
+		}
+		if !prefix && dels && len(used) > 0 && r.Chance(1, 5) {
+			// a DelKVPair batch: mostly keys that exist, some that do not
+			bt.Mode = 3
+			nd := r.Range(1, maxw/2+1)
+			for i := 0; i < nd; i++ {
+				k := pool[r.Intn(len(pool))]
+				for t := 0; t < 6 && cur[string(k)] == nil; t++ {
+					k = pool[r.Intn(len(pool))]
+				}
+				if r.Chance(1, 6) {
+					k = neighbour(r, k)
+				}
+				bt.Dels = append(bt.Dels, hb(k))
+				delete(cur, string(k))
+			}
+			prev = nil
+			h.Batches = append(h.Batches, bt)
+			continue
 		}
 		if b > 0 && len(prev) > 0 && r.Chance(1, 10) {
 			// re-commit the previous batch unchanged: the root must coincide
@@ -637,7 +672,7 @@ func genHistory(r *hlib.Rng, class int, prefix bool) *History {
 		h.Queries = append(h.Queries, q)
 	}
 	h.Gbis = []int32{-1, 0, 1, 2, 3, int32(r.Intn(12)), int32(r.Intn(40)), int32(len(pool)), int32(len(pool)) + 1, 100000}
-	h.Deep = !prefix && total <= 160
+	h.Deep = !prefix && total <= 100
 	names := []string{"small", "medium", "large"}
 	cfg := "plain"
 	if prefix {
@@ -646,6 +681,9 @@ func genHistory(r *hlib.Rng, class int, prefix bool) *History {
 	h.Kind = cfg + "-" + names[class]
 	if h.Deep {
 		h.Kind += "-deep"
+	}
+	if dels && !prefix {
+		h.Kind += "-del"
 	}
 	return h
 }
@@ -663,6 +701,25 @@ func permHistory(keys [][]byte, perm []int, prefix bool) *History {
 	h.Queries = []Query{{Lim: -1, Start: "-", End: "-", Asc: true}, {Lim: -1, Start: hb(keys[1]), End: hb(keys[len(keys)-1]), Asc: false},
 		{Lim: 2, Start: hb(keys[0]), End: hb(keys[len(keys)-2]), Asc: true, Incl: true}}
 	h.Gbis = []int32{0, int32(len(keys)) - 1, int32(len(keys))}
+	return h
+}
+
+// insert all keys in one batch, then delete keys[p[0]], keys[p[1]], ... one per batch
+func delPermHistory(keys [][]byte, perm []int) *History {
+	h := &History{Deep: true, Kind: "delperm"}
+	var ws []Write
+	for i, k := range keys {
+		ws = append(ws, Write{K: hb(k), V: hb([]byte{byte(0x30 + i)})})
+	}
+	h.Batches = append(h.Batches, Batch{Mode: 0, Writes: ws})
+	for _, i := range perm {
+		h.Batches = append(h.Batches, Batch{Mode: 3, Dels: []hexb{hb(keys[i])}})
+	}
+	for _, k := range keys {
+		h.Keys = append(h.Keys, hb(k))
+	}
+	h.Queries = []Query{{Lim: -1, Start: "-", End: "-", Asc: true}, {Lim: -1, Start: hb(keys[1]), End: "-", Asc: false}}
+	h.Gbis = []int32{0, 1, int32(len(keys)) - 1}
 	return h
 }
 
@@ -711,18 +768,24 @@ func main() {
 	// all insertion orders of 4 keys (24), one write per batch: every rotation case on tiny trees
 	pk := [][]byte{{}, {0x00}, {0x61}, {0x61, 0x00}, {0xff}}
 	permutations(4, func(p []int) { run(permHistory(pk[:4], p, false)) })
-	nSmall, nMed, nLarge := 14, 18, 8
+	nSmall, nMed, nLarge := 30, 24, 8
 	if opts.Thorough() {
 		nSmall, nMed, nLarge = 300, 500, 200
 		permutations(5, func(p []int) { run(permHistory(pk, p, r.Chance(1, 2))) })
 	}
+	// the "-del" histories also contain DelKVPair batches (exported by the tree package; not on
+	// the block path) - every second non-prefix history
 	for i := 0; i < nSmall; i++ {
-		run(genHistory(r, 0, i%3 == 2))
+		run(genHistory(r, 0, i%3 == 2, i%2 == 1))
 	}
 	for i := 0; i < nMed; i++ {
-		run(genHistory(r, 1, i%3 == 2))
+		run(genHistory(r, 1, i%3 == 2, i%2 == 1))
 	}
 	for i := 0; i < nLarge; i++ {
-		run(genHistory(r, 2, i%4 == 3))
+		run(genHistory(r, 2, i%4 == 3, i%2 == 1))
+	}
+	// removal orders on tiny trees: insert 5 keys, then delete them in every order of 4 of them
+	if true {
+		permutations(4, func(p []int) { run(delPermHistory(pk, p)) })
 	}
 }
